@@ -501,21 +501,33 @@ theorem forwardPhase_inv (pat : List Nat) (hm : pat.length = m) (hi : i < m) (h0
   exact inv_of_fres hc hres
 
 include hc in
+/-- `pattern[i]` does not occur: the candidate list is the single (empty) start interval with length 0 -/
+theorem forwardPhase_dead (pat : List Nat) (hm : pat.length = m) (hi : i < m) (h0 : c i (i + 1) = 0) :
+    forwardPhase (strOps c) pat i = [((i, i + 1), 0)] := by
+  have : ¬ c i (i + 1) ≠ 0 := by omega
+  rw [forwardPhase_str, if_neg this]
+  cases hd : pat.drop (i + 1) with
+  | nil => simp [fwdLoop]
+  | cons a rest =>
+    have hlen : (pat.drop (i + 1)).length = m - (i + 1) := by rw [List.length_drop, hm]
+    rw [hd, List.length_cons] at hlen
+    have h2 : c i (i + 1 + 1) = 0 := by
+      have := hc.anti i i (i + 1) (i + 1 + 1) (Nat.le_refl _) (by omega) (by omega) (by omega)
+      omega
+    simp [fwdLoop, h0, h2]
+
+include hc in
+theorem forwardPhase_mls_sorted (pat : List Nat) (hm : pat.length = m) (hi : i < m) :
+    ((forwardPhase (strOps c) pat i).map (·.2)).Pairwise (· ≥ ·) := by
+  by_cases h0 : c i (i + 1) = 0
+  · rw [forwardPhase_dead hc pat hm hi h0]; simp
+  · exact (forwardPhase_inv hc pat hm hi h0).mls_sorted
+
+include hc in
 /-- `pattern[i]` does not occur: nothing is reported (for `l ≥ 1`) -/
 theorem smems_dead (pat : List Nat) (hm : pat.length = m) (hi : i < m) (l : Nat) (hl : 1 ≤ l)
     (h0 : c i (i + 1) = 0) : smems (strOps c) pat i l = [] := by
-  have hfp : forwardPhase (strOps c) pat i = [((i, i + 1), 0)] := by
-    have : ¬ c i (i + 1) ≠ 0 := by omega
-    rw [forwardPhase_str, if_neg this]
-    cases hd : pat.drop (i + 1) with
-    | nil => simp [fwdLoop]
-    | cons a rest =>
-      have hlen : (pat.drop (i + 1)).length = m - (i + 1) := by rw [List.length_drop, hm]
-      rw [hd, List.length_cons] at hlen
-      have h2 : c i (i + 1 + 1) = 0 := by
-        have := hc.anti i i (i + 1) (i + 1 + 1) (Nat.le_refl _) (by omega) (by omega) (by omega)
-        omega
-      simp [fwdLoop, h0, h2]
+  have hfp := forwardPhase_dead hc pat hm hi h0
   unfold smems
   rw [hfp, outer_eq_spec _ _ _ _ _ _ _ (by omega) (by simp)]
   have hnl : ¬ l ≤ 0 := by omega
